@@ -66,6 +66,15 @@ _NEG = {"Lt": "Ge", "Ge": "Lt", "Gt": "Le", "Le": "Gt", "Eq": "Ne", "Ne": "Eq"}
 _MIRROR = {"Lt": "Gt", "Gt": "Lt", "Le": "Ge", "Ge": "Le", "Eq": "Eq", "Ne": "Ne"}
 
 
+def _constish(t):
+    t = T.strip(t)
+    if t[0] == "const" or T.fold_int(t) is not None:
+        return True
+    if t[0] == "agg" and t[1] in ("adt", "tuple", "array"):
+        return all(_constish(x) for x in t[4])
+    return False
+
+
 def _norm_cmp(c):
     """canonical comparison: polarity True (a negated test becomes the complementary operator), a constant operand on the right
     (`0x16 != x` false  ==  `x == 0x16`)"""
@@ -74,10 +83,43 @@ def _norm_cmp(c):
     op, a, b, pol, blk = c[1], c[2], c[3], c[4], c[5] if len(c) > 5 else None
     if pol is False:
         op, pol = _NEG[op], True
-    sa, sb = T.strip(a), T.strip(b)
-    if (T.fold_int(sa) is not None or (sa[0] == "const")) and not (T.fold_int(sb) is not None or sb[0] == "const"):
+    if _constish(a) and not _constish(b):
         a, b, op = b, a, _MIRROR[op]
     return ("cmp", op, a, b, pol, blk)
+
+
+SEARCH_ADAPTERS = ("::find", "::rfind", "::any", "::position", "::rposition", "::filter", "::take_while", "::skip_while", "::find_map", "::all")
+
+
+def closure_result_conds(program, closure_term):
+    """For a closure value term: canonical conditions equivalent to `the closure returned true`, one list per return site
+    (captured variables replaced by their origin in the creating body)."""
+    from . import tables as TB
+    ct = T.strip(closure_term)
+    if not (ct[0] == "agg" and ct[1] == "closure"):
+        return []
+    cb = program.bodies.get(ct[2])
+    if cb is None:
+        return []
+    out = []
+    for (i, j, t, _c) in TB.return_sites(cb, program):
+        t = T.expand_upvars(program, cb, t)
+        pol = True
+        while t[0] == "unop" and t[1] == "Not":
+            t, pol = t[2], not pol
+        out.append([_norm_cmp(x) for x in canon_cond(program, t, pol, None)])
+    return out
+
+
+def predicate_conds(program, term):
+    """Conditions tested by the predicate closures of iterator searches inside `term`
+    (`xs.iter().find(|x| p(x))` tests p just as `for x in xs { if p(x) {..} }` does): [(search call term, [cond...])]."""
+    out = []
+    for x in T.walk(term):
+        if x[0] == "call" and x[1].endswith(SEARCH_ADAPTERS) and len(x[2]) >= 2:
+            for cs in closure_result_conds(program, x[2][-1]):
+                out.append((x, cs))
+    return out
 
 
 def oriented(c, left):
@@ -120,6 +162,19 @@ def canon_cond(program, atom, label, blk=None):
     res = []
     if atom[0] == "variant":
         place = T.strip(atom[1])
+        # `x?`: ControlFlow of Try::branch(x) is Continue exactly when x is Some / Ok  (core::ops::Try for Option and Result)
+        if place[0] == "call" and place[1].endswith("::branch") and "Try" in place[1] and len(place[2]) == 1 and \
+                ("option::Option" in place[1] or "result::Result" in place[1]):
+            m = {"Continue": "Some", "Break": "None"} if "option::Option" in place[1] else {"Continue": "Ok", "Break": "Err"}
+
+            def tr(l):
+                if isinstance(l, str):
+                    return m.get(l, l)
+                if isinstance(l, tuple) and l and l[0] in ("else", "anyof"):
+                    return (l[0], tuple(m.get(x, x) for x in l[1]))
+                return l
+            label = tr(label)
+            place = T.strip(place[2][0])
         if isinstance(label, tuple) and label and label[0] == "else":
             rest = label[1]
             if len(rest) == 1:
@@ -249,3 +304,41 @@ def stmt_line(body, blk, idx=None):
     if idx is not None and idx >= 0 and idx < len(b["s"]):
         return b["s"][idx]["line"]
     return b["t"]["span"]["lo"]
+
+
+GROWERS = ("::push", "::push_back", "::push_front", "::insert", "::extend", "::extend_from_slice", "::append", "::push_str")
+EMPTY_CTORS = ("Vec::<T>::new", "Vec::<T>::with_capacity", "::default", "VecDeque::<T>::new", "String::new")
+
+
+def grown_values(program, body, S, local):
+    """Values added to the collection held in `local` by push/insert/extend calls whose receiver is a borrow of that local:
+    [(call block, callee, value term)].  `let mut v = Vec::new(); for x in xs { if p(x) { v.push(f(x)) } }` feeds v exactly
+    as `xs.iter().filter(p).map(f).collect()` does; rules that ask where the elements of a list come from use both."""
+    from . import tables as TB
+    root = TB._root_local(body, local)
+    out = []
+    for blk, t in body.calls():
+        name = t.get("res") or t.get("decl") or ""
+        if not name.endswith(GROWERS) or len(t["args"]) < 2:
+            continue
+        r = t["args"][0]
+        p = r.get("m") or r.get("c")
+        if p is None or p["pr"]:
+            continue
+        if TB._root_local(body, p["l"]) != root:
+            continue
+        n = len(body.blocks[blk]["s"])
+        out.append((blk, name, S.operand(t["args"][-1], blk, n)))
+    return out
+
+
+def element_sources(program, body, S, op, blk, idx):
+    """Origin terms of the elements of a list-valued operand: its own origin term plus, when that is an empty constructor,
+    every value pushed into the local it is moved from."""
+    t = S.operand(op, blk, idx)
+    out = [t]
+    p = op.get("m") or op.get("c")
+    st = T.strip(t)
+    if p is not None and not p["pr"] and st[0] == "call" and st[1].endswith(EMPTY_CTORS):
+        out += [v for (_, _, v) in grown_values(program, body, S, p["l"])]
+    return out
